@@ -25,6 +25,15 @@ theorem no_duplicates_not_rejected (r : Request) (h : (r.kws.map Param.kw).Nodup
     (PSet.ofList r.kws).check = .ok () := by
   rw [check_ofList]; simp [h]
 
+/-- `merge(defaults)` either throws `wrong_parameter_type_error` (a given keyword holds a value whose type differs from
+    its default's) or returns the set `merged r` the two theorems below speak about -/
+theorem merge_outcome (r : Request) (h : (r.kws.map Param.kw).Nodup) :
+    (PSet.ofList r.kws).merge defaults = .ok (merged r) ∨
+    (PSet.ofList r.kws).merge defaults = .error (errS .wrong_parameter_type_error) := by
+  rcases merge_defaults_cases r h with h1 | h1
+  · exact Or.inl h1.1
+  · exact Or.inr h1.1
+
 /-- explicitly set values are never replaced by defaults -/
 theorem explicit_values_kept (r : Request) (h : (r.kws.map Param.kw).Nodup) (p : Param) (hp : p ∈ r.kws) :
     (merged r).get p.kw = .ok p.val := by
@@ -94,7 +103,8 @@ theorem typedOf_cancel (r : Request) (m : Meth) (wf : WellFormed r m) :
 
 theorem typedOf_speLocal (r : Request) (m : Meth) (wf : WellFormed r m) :
     ((typedOf (merged r).pmap).bool .spe_global_strategy == false) = speLocal (merged r) := by
-  obtain ⟨v, hv, hty⟩ := merged_typed r wf.typed ⟨_, wf.method, rfl⟩ .spe_global_strategy
+  obtain ⟨v, hv, hty⟩ := merged_typed r (wellTyped_defaults r wf.typed)
+    ⟨m, lookup_method r wf.nodup m wf.method⟩ .spe_global_strategy
   cases v <;> simp [Val.ty, Kw.ty] at hty
   rename_i b
   cases b <;> simp [typedOf, speLocal, hv]
@@ -107,14 +117,14 @@ theorem typedOf_speLocal (r : Request) (m : Meth) (wf : WellFormed r m) :
 theorem validate_matches_spec (r : Request) (m : Meth) (wf : WellFormed r m) :
     (frontEnd r).outcome = .threw (errT .wrong_parameter_error) ↔
       ¬ SpecHolds m r.n (numOf (merged r)) (speLocal (merged r)) := by
-  have htyped := merged_typed r wf.typed ⟨_, wf.method, rfl⟩
+  have htyped := merged_typed r (wellTyped_defaults r wf.typed) ⟨m, lookup_method r wf.nodup m wf.method⟩
   have hget := typedOf_get (merged r) htyped
   have hv := verdict m r (typedOf (merged r).pmap) (merged r) hget (typedOf_meth r m wf)
   obtain ⟨h1, -, -, h4⟩ := hv
   have h1 := h1 wf.nonempty (typedOf_cancel r m wf) wf.callbacks
   have hnum : (typedOf (merged r).pmap).num = numOf (merged r) := funext (typedOf_num (merged r) htyped)
   rw [hnum, typedOf_speLocal r m wf] at h1
-  rw [← h1, frontEnd_eq r wf.nodup]
+  rw [← h1, frontEnd_eq r wf.nodup (wellTyped_defaults r wf.typed)]
   generalize afterMerge r (merged r) = x at h4 ⊢
   obtain ⟨a, c⟩ := x
   cases a with
@@ -139,124 +149,129 @@ example : WellFormed ⟨10, [⟨.method, .method .Isomap⟩, ⟨.num_neighbors, 
 
 /-! ## nothing is evaluated before an error -/
 
-/-- the full statement of the property text: *whatever* is wrong with a request, the exception comes before any kernel
-    or distance evaluation -/
-def NoCallbackBeforeError : Prop :=
-  ∀ r : Request, ∀ e, (frontEnd r).outcome = .threw e → (frontEnd r).counts.kernel = 0 ∧ (frontEnd r).counts.distance = 0
+/-- the method value of the merged set, classified -/
+theorem method_cases (r : Request) :
+    lookup Kw.method (merged r).pmap = none ∨
+    (∃ v, lookup Kw.method (merged r).pmap = some v ∧ v.ty ≠ .method) ∨
+    (∃ m, lookup Kw.method (merged r).pmap = some (.method m)) := by
+  cases h : lookup Kw.method (merged r).pmap with
+  | none => exact Or.inl rfl
+  | some v =>
+    cases v with
+    | method m => exact Or.inr (Or.inr ⟨m, rfl⟩)
+    | _ => exact Or.inr (Or.inl ⟨_, rfl, by simp [Val.ty]⟩)
 
-/-- the witness of finding F-TYPE-LATE: Isomap on 10 samples with `eigen_method` holding an `int` -/
-def lateTypeErrorWitness : Request :=
-  ⟨10, [⟨.method, .method .Isomap⟩, ⟨.eigen_method, .int 3⟩], false, true, false, false⟩
-
-/-- **Finding F-TYPE-LATE.**  The full statement is false of the code as it stands: a wrong-typed value of a keyword that
-    `embed()` only reads after its first distance computations (here `eigen_method`, read inside
-    `eigendecomposition_via`) is reported by `wrong_parameter_type_error` *after* distance evaluations. -/
-theorem no_callback_before_error_refuted : ¬ NoCallbackBeforeError := by
-  intro h
-  have hw : frontEnd lateTypeErrorWitness = ⟨.threw (errT .wrong_parameter_type_error), ⟨0, 2, 0⟩⟩ := by decide +kernel
-  have := h lateTypeErrorWitness _ (by rw [hw])
-  rw [hw] at this
-  exact absurd this.2 (by decide)
-
-/-- What does hold: if every value has the type of its keyword, then whatever else is wrong with the request
-    (duplicates in any order, no method, no data, values outside their ranges, cancel, any subset of callbacks missing,
-    either harness mode) an exception comes before any kernel or distance evaluation.  This covers the
-    `num_neighbors` check, which sits inside `embed()`: the generated `Gen.embedBody` shows it in front of every
-    kernel / distance use of every method. -/
-theorem no_callback_before_error_partial (r : Request) (ht : WellTyped r) (e : Err)
-    (h : (frontEnd r).outcome = .threw e) :
+/-- **No callback before an error** (full statement of the property text).  Whatever is wrong with a request -
+    duplicates in any order and multiplicity, values of the wrong type, no method, no data, values outside their ranges,
+    cancel, any subset of callbacks missing, in either harness mode - the exception comes before any kernel or distance
+    evaluation.  This covers the `num_neighbors` check, which sits inside `embed()`: the generated `Gen.embedBody` shows
+    it in front of every kernel / distance use of every method.  (Before repository commit 6b3b662 this was false:
+    finding F-TYPE-LATE, witness kept in corpus/C14/f-type-late.case.) -/
+theorem no_callback_before_error (r : Request) (e : Err) (h : (frontEnd r).outcome = .threw e) :
     (frontEnd r).counts.kernel = 0 ∧ (frontEnd r).counts.distance = 0 := by
   by_cases hn : (r.kws.map Param.kw).Nodup
-  · rw [frontEnd_eq r hn] at h ⊢
-    by_cases hm : ∃ p ∈ r.kws, p.kw = Kw.method
-    · have htyped := merged_typed r ht hm
-      have hv := verdict _ r (typedOf (merged r).pmap) (merged r) (typedOf_get (merged r) htyped) rfl
-      obtain ⟨-, h2, -, -⟩ := hv
-      generalize afterMerge r (merged r) = x at h h2 ⊢
-      obtain ⟨a, c⟩ := x
-      cases a with
-      | ok s => simp [finish] at h
-      | error s =>
-        cases s with
-        | reached cb => simp [finish] at h
-        | threw e' => exact h2 e' rfl
-    · have hl : lookup .method (merged r).pmap = none := by
-        rw [lookup_merged, (lastVal_none_iff _ _).mpr (fun p hp hk => hm ⟨p, hp, hk⟩)]
-        decide
-      rw [afterMerge_no_method r _ hl]
-      simp [finish, Counts.zero]
+  · rcases merge_defaults_cases r hn with ⟨-, ht⟩ | ⟨hm, -⟩
+    · rw [frontEnd_eq r hn ht] at h ⊢
+      rcases method_cases r with hl | ⟨v, hl, hty⟩ | hm
+      · rw [afterMerge_no_method r _ hl]; simp [finish, Counts.zero]
+      · rw [afterMerge_method_wrong_type r _ v hl hty]; simp [finish, Counts.zero]
+      · have htyped := merged_typed r ht hm
+        have hv := verdict _ r (typedOf (merged r).pmap) (merged r) (typedOf_get (merged r) htyped) rfl
+        obtain ⟨-, h2, -, -⟩ := hv
+        generalize afterMerge r (merged r) = x at h h2 ⊢
+        obtain ⟨a, c⟩ := x
+        cases a with
+        | ok s => simp [finish] at h
+        | error s =>
+          cases s with
+          | reached cb => simp [finish] at h
+          | threw e' => exact h2 e' rfl
+    · rw [frontEnd_merge_error r hn hm]; simp [Counts.zero]
   · rw [duplicates_always_rejected r hn]
     simp [Counts.zero]
 
-/-- non-vacuity of `no_callback_before_error_partial`: a well-typed request that ends in an error -/
-example : WellTyped ⟨5, [⟨.method, .method .Isomap⟩, ⟨.num_neighbors, .int 7⟩], false, true, false, false⟩ ∧
-    (frontEnd ⟨5, [⟨.method, .method .Isomap⟩, ⟨.num_neighbors, .int 7⟩], false, true, false, false⟩).outcome =
-      .threw (errT .wrong_parameter_error) := by
-  constructor
-  · intro p hp; simp at hp; rcases hp with rfl | rfl <;> rfl
-  · decide +kernel
+/-- non-vacuity: requests that end in an error -/
+example : (frontEnd ⟨5, [⟨.method, .method .Isomap⟩, ⟨.num_neighbors, .int 7⟩], false, true, false, false⟩).outcome =
+      .threw (errT .wrong_parameter_error) := by decide +kernel
+example : frontEnd ⟨10, [⟨.method, .method .Isomap⟩, ⟨.eigen_method, .int 3⟩], false, true, false, false⟩ =
+      ⟨.threw (errT .wrong_parameter_type_error), Counts.zero⟩ := by decide +kernel
+
+/-- **A value of the wrong type is always reported**, before anything is computed: any keyword that has a default
+    (every keyword except `method`) given with a value of another C++ type, anywhere in a duplicate-free list -/
+theorem wrong_type_always_rejected (r : Request) (hn : (r.kws.map Param.kw).Nodup) (p : Param) (hp : p ∈ r.kws)
+    (hk : p.kw ≠ .method) (hty : p.val.ty ≠ p.kw.ty) :
+    frontEnd r = ⟨.threw (errT .wrong_parameter_type_error), Counts.zero⟩ :=
+  frontEnd_merge_error r hn (merge_defaults_fails r p hp hn (documented_default_eq_actual.2 p.kw hk) hty)
 
 /-! ## which exception, in the order the code checks (the names state the precedence) -/
 
 /-- a request whose keyword list is free of duplicates, names a method and is well typed -/
 structure Typed (r : Request) : Prop where
   nodup : (r.kws.map Param.kw).Nodup
-  method : ∃ p ∈ r.kws, p.kw = Kw.method
+  method : ∃ m, (⟨.method, .method m⟩ : Param) ∈ r.kws
   typed : WellTyped r
+
+theorem Typed.merged_typed {r : Request} (h : Typed r) (k : Kw) :
+    ∃ v, lookup k (merged r).pmap = some v ∧ v.ty = k.ty := by
+  obtain ⟨m, hm⟩ := h.method
+  exact Params.merged_typed r (wellTyped_defaults r h.typed) ⟨m, lookup_method r h.nodup m hm⟩ k
 
 /-- duplicates come first: see `duplicates_always_rejected` (no hypothesis besides the repeated keyword). -/
 theorem dups_before_everything (r : Request) (h : ¬ (r.kws.map Param.kw).Nodup) :
     (frontEnd r).outcome = .threw (errT .multiple_parameter_error) := by
   rw [duplicates_always_rejected r h]
 
+/-- a wrong-typed value (of a keyword with a default) is reported before a missing method, an empty range, … -/
+theorem wrong_type_before_missing_method (r : Request) (hn : (r.kws.map Param.kw).Nodup) (p : Param) (hp : p ∈ r.kws)
+    (hk : p.kw ≠ .method) (hty : p.val.ty ≠ p.kw.ty) (_hm : ∀ q ∈ r.kws, q.kw ≠ Kw.method) (_h0 : r.n = 0) :
+    (frontEnd r).outcome = .threw (errT .wrong_parameter_type_error) := by
+  rw [wrong_type_always_rejected r hn p hp hk hty]
+
 /-- a missing method is reported (`missed_parameter_error`) before the empty range, wrong values, cancel, callbacks -/
-theorem missing_method_before_no_data (r : Request) (hn : (r.kws.map Param.kw).Nodup)
+theorem missing_method_before_no_data (r : Request) (hn : (r.kws.map Param.kw).Nodup) (ht : WellTyped r)
     (hm : ∀ p ∈ r.kws, p.kw ≠ Kw.method) :
     frontEnd r = ⟨.threw (errT .missed_parameter_error), Counts.zero⟩ := by
   have hl : lookup .method (merged r).pmap = none := by
     rw [lookup_merged, (lastVal_none_iff _ _).mpr hm]; decide
-  rw [frontEnd_eq r hn, afterMerge_no_method r _ hl]; decide
+  rw [frontEnd_eq r hn (wellTyped_defaults r ht), afterMerge_no_method r _ hl]; decide
 
-/-- a `method` value of the wrong type is reported (`wrong_parameter_type_error`) before everything but duplicates -/
-theorem method_type_before_no_data (r : Request) (hn : (r.kws.map Param.kw).Nodup) (p : Param) (hp : p ∈ r.kws)
+/-- a `method` value of the wrong type is reported (`wrong_parameter_type_error`) before the empty range, … -/
+theorem method_type_before_no_data (r : Request) (hn : (r.kws.map Param.kw).Nodup)
+    (ht : ∀ p ∈ r.kws, p.kw ∈ defaultsList → p.val.ty = p.kw.ty) (p : Param) (hp : p ∈ r.kws)
     (hk : p.kw = Kw.method) (hty : p.val.ty ≠ .method) :
     frontEnd r = ⟨.threw (errT .wrong_parameter_type_error), Counts.zero⟩ := by
   have hl : lookup .method (merged r).pmap = some p.val := by
-    have := explicit_values_kept r hn p hp
-    rw [hk] at this
-    simp only [PSet.get] at this
-    cases h : lookup Kw.method (merged r).pmap with
-    | none => simp [h] at this
-    | some v => simp [h] at this; rw [this]
-  rw [frontEnd_eq r hn, afterMerge_method_wrong_type r _ _ hl hty]; decide
+    have := lookup_merged_explicit r hn p hp
+    rwa [hk] at this
+  rw [frontEnd_eq r hn ht, afterMerge_method_wrong_type r _ _ hl hty]; decide
 
 /-- an empty range is reported (`no_data_error`) before any value is looked at -/
 theorem no_data_before_ranges (r : Request) (h : Typed r) (hn : r.n = 0) :
     frontEnd r = ⟨.threw (errT .no_data_error), Counts.zero⟩ := by
-  have htyped := merged_typed r h.typed h.method
-  rw [frontEnd_eq r h.nodup, prefix_no_data r _ _ (typedOf_get (merged r) htyped) hn]; decide
+  rw [frontEnd_eq r h.nodup (wellTyped_defaults r h.typed),
+    prefix_no_data r _ _ (typedOf_get (merged r) h.merged_typed) hn]; decide
 
 /-- `target_dimension` outside `[1, N)` is reported (`wrong_parameter_error`) before cancel and the callback checks -/
 theorem dimension_before_cancel (r : Request) (h : Typed r) (hn : r.n ≠ 0)
     (hd : ¬ (1 ≤ numOf (merged r) .target_dimension ∧ numOf (merged r) .target_dimension < r.n)) :
     frontEnd r = ⟨.threw (errT .wrong_parameter_error), Counts.zero⟩ := by
-  have htyped := merged_typed r h.typed h.method
-  have hnum := typedOf_num (merged r) htyped .target_dimension
+  have hnum := typedOf_num (merged r) h.merged_typed .target_dimension
   simp only [TypedVals.num, Kw.ty] at hnum
   rw [← hnum] at hd
-  rw [frontEnd_eq r h.nodup, prefix_dimension r _ _ (typedOf_get (merged r) htyped) hn hd]; decide
+  rw [frontEnd_eq r h.nodup (wellTyped_defaults r h.typed),
+    prefix_dimension r _ _ (typedOf_get (merged r) h.merged_typed) hn hd]; decide
 
 /-- a cancel function returning true is honoured (`cancelled_exception`) before the callback checks and `validate()` -/
 theorem cancel_before_callbacks (r : Request) (h : Typed r) (hn : r.n ≠ 0)
     (hd : 1 ≤ numOf (merged r) .target_dimension ∧ numOf (merged r) .target_dimension < r.n)
     (hc : lookup .cancel_function (merged r).pmap = some (.cancelFn (some true))) :
     frontEnd r = ⟨.threw (errT .cancelled_exception), Counts.zero⟩ := by
-  have htyped := merged_typed r h.typed h.method
-  have hnum := typedOf_num (merged r) htyped .target_dimension
+  have hnum := typedOf_num (merged r) h.merged_typed .target_dimension
   simp only [TypedVals.num, Kw.ty] at hnum
   rw [← hnum] at hd
   have hc' : (typedOf (merged r).pmap).cancel .cancel_function = some true := by simp [typedOf, hc]
-  rw [frontEnd_eq r h.nodup, prefix_cancel r _ _ (typedOf_get (merged r) htyped) hn hd hc']; decide
+  rw [frontEnd_eq r h.nodup (wellTyped_defaults r h.typed),
+    prefix_cancel r _ _ (typedOf_get (merged r) h.merged_typed) hn hd hc']; decide
 
 /-- a missing declared callback is reported (`unsupported_method_error`) before `validate()` -/
 theorem callbacks_before_validate (r : Request) (m : Meth) (h : Typed r) (hn : r.n ≠ 0)
@@ -265,7 +280,7 @@ theorem callbacks_before_validate (r : Request) (m : Meth) (h : Typed r) (hn : r
     (hc : lookup .cancel_function (merged r).pmap ≠ some (.cancelFn (some true)))
     (hs : ¬ DeclaredSupplied m r) :
     frontEnd r = ⟨.threw (errT .unsupported_method_error), Counts.zero⟩ := by
-  have htyped := merged_typed r h.typed h.method
+  have htyped := h.merged_typed
   have hnum := typedOf_num (merged r) htyped .target_dimension
   simp only [TypedVals.num, Kw.ty] at hnum
   rw [← hnum] at hd
@@ -277,7 +292,8 @@ theorem callbacks_before_validate (r : Request) (m : Meth) (h : Typed r) (hn : r
     simp only [typedOf, hv]
     intro hcc; subst hcc; exact hc hv
   rw [← hm'] at hs
-  rw [frontEnd_eq r h.nodup, prefix_callbacks r _ _ (typedOf_get (merged r) htyped) hn hd hc' hs]; decide
+  rw [frontEnd_eq r h.nodup (wellTyped_defaults r h.typed),
+    prefix_callbacks r _ _ (typedOf_get (merged r) htyped) hn hd hc' hs]; decide
 
 /-- every exception class stichwort defines is caught by `tapkee::embed` and rethrown as its tapkee twin -/
 theorem rethrow_map_total :
